@@ -246,6 +246,20 @@ def check_ban(run, A):
                 one = [s for s in sites if len(s.operands) == 3]
                 okr = bool(two) and bool(one) and any(x is two[0].term for x in walk_terms(num)) and any(x is one[0].term for x in walk_terms(den)) \
                     and not any(x is one[0].term for x in walk_terms(num))
+                if okr:
+                    # numerator sqrt(w^H Phi Phi w), denominator |w^H Phi w| (a magnitude: abs(q), sqrt(q conj(q)), or q itself / its real part - the form is Hermitian)
+                    from ..walk import abs_square_operand
+                    d0, n0 = strip_views(den), strip_views(num)
+                    q3, q4 = one[0].term, two[0].term
+                    through = lambda z: strip_views(call_arg(strip_views(z), 0)) if is_call_to(strip_views(z), 'numpy.asarray', 'numpy.array') else strip_views(z)
+                    d0, n0 = through(d0), through(n0)
+                    okden = d0 is q3 or (d0.op == 'attr' and d0.args[1] == 'real' and strip_views(d0.args[0]) is q3) or (is_call_to(d0, 'numpy.abs') and through(call_arg(d0, 0)) is q3) or \
+                        (is_call_to(d0, 'numpy.sqrt') and abs_square_operand(call_arg(d0, 0)) is not None and through(abs_square_operand(call_arg(d0, 0))) is q3)
+                    oknum = is_call_to(n0, 'numpy.sqrt') and (through(call_arg(n0, 0)) is q4 or (strip_views(call_arg(n0, 0)).op == 'attr' and strip_views(strip_views(call_arg(n0, 0)).args[0]) is q4)
+                                                              or (is_call_to(strip_views(call_arg(n0, 0)), 'numpy.abs') and through(call_arg(strip_views(call_arg(n0, 0)), 0)) is q4))
+                    run.check(okden and oknum, 'SHAPE', 'BAN: gain = sqrt(w^H Phi Phi w) / |w^H Phi w|', fn.loc(dv.node), '',
+                              f'numerator is the square root of the two-factor form: {oknum}; denominator is the magnitude of the one-factor form: {okden}',
+                              construct=f'SHAPE::{q}::gain-form')
     run.check(okr, 'SHAPE', 'BAN: vector * |gain[..., None]| with gain = sqrt(w^H Phi Phi w) / |w^H Phi w|', fn.loc(), '',
               'return value is not the input vector times the absolute value of one gain per leading index (trailing singleton axis)', construct=f'SHAPE::{q}::gain')
 
